@@ -544,7 +544,10 @@ class IndexReader(object):
         """
 
         fieldobj = self.schema[fieldname]
-        for btext in self.expand_prefix(fieldname, text[:prefix]):
+        # Like the per-segment implementation, look in the field that holds
+        # the unmodified words when the field keeps them separately
+        spellfield = fieldobj.spelling_fieldname(fieldname)
+        for btext in self.expand_prefix(spellfield, text[:prefix]):
             word = fieldobj.from_bytes(btext)
             k = distance(word, text, limit=maxdist)
             if k <= maxdist:
